@@ -144,7 +144,22 @@ func (x *Exec) enterBlock(st *State, fr *Frame, b *ssa.BasicBlock) bool {
 			var prev []T
 			for j, inv := range spec.Invariants {
 				g := x.evalClause(ctx, inv, c)
+				x.nextFocus = fmt.Sprintf("%s#L%d/inv#%d", fr.fn.String(), ord, j+1)
+				var ground, simple []T
+				for _, p := range prev {
+					if !strings.Contains(p.S, "(forall ") && !strings.Contains(p.S, "(exists ") {
+						ground = append(ground, p)
+						simple = append(simple, p)
+					} else if simpleQuant(p.S) {
+						simple = append(simple, p)
+					}
+				}
+				x.nextAltGoal = implies(and(ground...), g)
+				x.nextAltGoal2 = implies(and(simple...), g)
 				x.addCheck(st, fr, fmt.Sprintf("loop#%d/inv#%d/preserve", ord, j+1), implies(and(prev...), g), b.Instrs[0].Pos(), inv.Text)
+				x.nextFocus = ""
+				x.nextAltGoal = T{}
+				x.nextAltGoal2 = T{}
 				prev = append(prev, g)
 			}
 		}
@@ -263,10 +278,18 @@ func (x *Exec) enterBlock(st *State, fr *Frame, b *ssa.BasicBlock) bool {
 	}
 	x.havocRec(st, rec, stable)
 	if fr.parent == nil && fr.contract != nil && !fr.contract.ModAll && len(wholeHeaps) > 0 {
+		// one quantified frame fact per heap, triggered only by a read of that heap's new version
 		q := T{quoteSym("q frame r"), SInt}
-		g := x.frameGoal(st, fr, wholeHeaps, q)
-		if g.S != "true" {
-			st.assume(T{fmt.Sprintf("(forall ((%s Int)) %s)", q.S, g.S), SBool})
+		for _, hn := range wholeHeaps {
+			g := x.frameGoal(st, fr, []string{hn}, q)
+			if g.S == "true" {
+				continue
+			}
+			if cur, ok := st.heaps[hn]; ok {
+				st.assume(T{fmt.Sprintf("(forall ((%s Int)) (! %s :pattern ((select %s %s))))", q.S, g.S, cur.S, q.S), SBool})
+			} else {
+				st.assume(T{fmt.Sprintf("(forall ((%s Int)) %s)", q.S, g.S), SBool})
+			}
 		}
 	}
 	// typing facts and structural facts
@@ -274,8 +297,11 @@ func (x *Exec) enterBlock(st *State, fr *Frame, b *ssa.BasicBlock) bool {
 	if spec != nil {
 		ctx := x.invCtx(st, fr, c)
 		ctx.entry = entry
-		for _, inv := range spec.Invariants {
-			st.assume(x.evalClause(ctx, inv, c))
+		for j, inv := range spec.Invariants {
+			g := x.evalClause(ctx, inv, c)
+			curTag = fmt.Sprintf("%s#L%d/inv#%d", fr.fn.String(), ord, j+1)
+			st.assume(g)
+			curTag = ""
 		}
 	} else if x.dry == 0 {
 		x.note("loop #%d of %s has no invariant (only structural facts are kept)", ord, funcDisplayName(fr.fn))
